@@ -46,6 +46,7 @@ func vTriAt(name string, i, n int) *bool {
 	return nil
 }
 
+var vNoCerts bool    // supports_tls_client_certs is unset or false (keeps the case set of the set-algebra harness at <= 2x)
 var vExactLists bool // every axis list has exactly L entries (keeps the computed sets small for the set-algebra harness)
 
 func vSymFeatures(L int) *conformancev1.Features {
@@ -77,6 +78,10 @@ func vSymFeatures(L int) *conformancev1.Features {
 	f.SupportsH2C = vTri("h2c")
 	f.SupportsTls = vTri("tls")
 	f.SupportsTlsClientCerts = vTri("certs")
+	if vNoCerts {
+		// bound of the set-algebra harness: client certificates not declared supported (unset or false)
+		vAssume(f.SupportsTlsClientCerts == nil || !*f.SupportsTlsClientCerts)
+	}
 	f.SupportsTrailers = vTri("trailers")
 	f.SupportsHalfDuplexBidiOverHttp1 = vTri("halfdup1")
 	f.SupportsConnectGet = vTri("get")
@@ -467,6 +472,7 @@ func h06p(L, NI, NE int) {
 		vAssert(!member, "a configuration that denotes some case is not rejected")
 		return
 	}
+	vAssert(len(cases) > 0, "a configuration that denotes no case at all is rejected with an error")
 	found := false
 	for _, k := range cases {
 		if k == c {
@@ -479,6 +485,7 @@ func h06p(L, NI, NE int) {
 
 func H06p_q() {
 	vExactLists = true
+	vNoCerts = true
 	h06p(1, 1, 1)
 }
 func H06p_d() { h06p(1, 1, 0) }
